@@ -366,7 +366,20 @@ def run_impl(c):
 NEW_PIPELINE_OPS = ("copy", "pickle", "join", "simplify", "split")
 
 
+def _clear_caches(pl):
+    """Drop the memoised properties (what any later update of the object would do): the probes look at the state
+    itself, not at a cached view of it."""
+    from pipefunc import NestedPipeFunc
+
+    for f in pl.functions:
+        f._clear_internal_cache()
+        if isinstance(f, NestedPipeFunc):
+            _clear_caches(f.pipeline)
+    pl._clear_internal_cache()
+
+
 def alias_state(pl, call):
+    _clear_caches(pl)
     fs = []
     for f in pl.functions:
         fs.append([list(_tup(f)), list(f.parameters),
@@ -728,7 +741,25 @@ def _gen_calls(rng, b0, pl, rho, tier):
     return calls
 
 
+def _shared_dependency_pipeline(rng):
+    """f0 feeds two functions with the same root arguments whose consumer has more root arguments: the shape on
+    which simplified_pipeline puts f0 into two groups (known finding simplify-shared-dependency)."""
+    def fn(name, outs, params):
+        return {"name": name, "outs": outs, "params": [[p, p] for p in params], "sigd": {}, "defs": {}, "bound": {}}
+    o0 = ["o0", "o9"] if rng.random() < 0.3 else ["o0"]
+    fs = [fn("f0", o0, ["x"]), fn("f1", ["o1"], ["o0"]), fn("f2", ["o2"], [rng.choice(o0)]),
+          fn("f3", ["o3"], ["o1", "o2", "w"])]
+    if rng.random() < 0.5:
+        fs.append(fn("f4", ["o4"], ["o3", "y"]))
+    rng.shuffle(fs)
+    return {"funcs": fs}
+
+
 def gen_rewrite_case(rng, tier):
+    if rng.random() < 0.03:
+        pd = _shared_dependency_pipeline(rng)
+        o = rng.choice(["o3", "o3", "o4"]) if any(f["name"] == "f4" for f in pd["funcs"]) else "o3"
+        return {"kind": "rewrite", "p": pd, "ops": [{"op": "simplify", "o": o, "cons": rng.random() < 0.5}], "calls": []}
     pd = pipegen.gen_pipeline(rng, nmax=5, nmin=1 if rng.random() < 0.1 else 2)
     with _quiet(), warnings.catch_warnings():
         warnings.simplefilter("ignore")
